@@ -64,7 +64,7 @@ func runC08(c *core.Ctx) *core.Violation {
 		startMode = 1
 		ckptDB = t.Choose(3)
 	}
-	so := StreamOpts{MaxCmds: 40, DBs: 3, StartDB: -1, NonIdem: true}
+	so := StreamOpts{MaxCmds: 40, DBs: 3, StartDB: -1, NonIdem: true, BigValues: t.Choose(4) == 3}
 	if startMode == 1 {
 		so.StartDB = ckptDB
 	}
